@@ -173,6 +173,11 @@ def _discharge_sub(b, bb, a, c):
             for sb, cond, taken, succ, other in guard.edges_dominating(b, bb):
                 if is_call(cond, "is_empty") and cond[3] == a[3] and not taken:
                     return "pass", "guarded by !is_empty(%s)" % show(a[3][0])
+        # `if self.is_empty() { return .. } .. self.length - 1`: is_empty() is len() == 0 and len() is the length field (DEFS)
+        if a[0] == "field" and a[2] == "length":
+            for sb, cond, taken, succ, other in guard.edges_dominating(b, bb):
+                if is_call(cond, "is_empty") and len(cond[3]) == 1 and cond[3][0] == a[1] and not taken:
+                    return "pass", "guarded by !is_empty(%s)" % show(a[1])
         # x += 1; x - 1  (same block, the store precedes)
         for st in b.blocks[bb]["st"]:
             if st["s"] == "assign" and st["p"]["pr"]:
